@@ -691,6 +691,13 @@ def judge_b(name):
 
     def judge(res):
         """returns (outcome key, list of broken invariants)"""
+        key, bad = judge0(res)
+        # how many preemptions this schedule needed is part of the identity of
+        # a finding: the same symptom reached with fewer preemptions is new
+        p = coopsched.preemptions(res.points)
+        return key, [b + ("p%d" % p,) for b in bad]
+
+    def judge0(res):
         if res.failure:
             return ("scheduler", res.failure[0]), [("I1-" + res.failure[0],
                                                     str(res.failure[1])[:120])]
@@ -808,7 +815,7 @@ def explore_b(ctx, name, bound, cap):
                     else:
                         detail = key.split("), (")[1].split(")")[0] \
                             if "), (" in key else ""
-                    sig = "C04b:%s:%s:%s" % (name, b[0], detail)
+                    sig = "C04b:%s:%s:%s:%s" % (name, b[0], detail, b[-1])
                     e = viol_sigs.setdefault(sig, [0, prefix, key, b])
                     e[0] += 1
                     if len(prefix) < len(e[1]):
